@@ -97,6 +97,7 @@ func runTasks(tasks []C19Task, s *simrt.Sched, only int) *c19Run {
 				cur := simrt.CurTask()
 				cur.CallIdx = callBase[ti] + ci
 				syncAtCall[cur.ID] = cur.SyncOps
+				callClock := cur.Clock()
 				if spec == nil {
 					run.results[ti][ci] = Result{Panic: "unknown op " + c.Op}
 					continue
@@ -106,38 +107,66 @@ func runTasks(tasks []C19Task, s *simrt.Sched, only int) *c19Run {
 				simrt.CallDepth(0)
 				run.results[ti][ci] = res
 				monitor(simrt.CurTask(), "call-end") // attribute state changes to the call that made them
+				s.CommitReads(simrt.CurTask(), callClock)
 			}
 		}, t.order())
 		simTasks = append(simTasks, st)
 	}
 	// monitors, evaluated at every scheduler step
 	stepClock := map[int]uint32{}
-	lastG := simrt.GlobalHashes()
+	lastG := simrt.GlobalComponents()
 	lastA := simrt.DeepHash(allArgs)
 	monitor = func(ran *simrt.Task, reason string) {
 		if ran == nil {
 			return
 		}
-		g := simrt.GlobalHashes()
+		g := simrt.GlobalComponents()
 		for i := range g {
-			if i < len(lastG) && g[i] != lastG[i] {
-				// feed the change into the vector-clock monitor as a write at the earliest moment
-				// it can have happened (start of this step)
-				if vid, ok := varIDByName[simrt.Globals[i].Name]; ok {
-					c := stepClock[ran.ID]
-					if c == 0 {
-						c = 1
+			if i >= len(lastG) {
+				break
+			}
+			// which first-level components changed? (a different shape - a slice that grew, a
+			// pointer that now points elsewhere - counts as a change of the whole variable)
+			var changed []uintptr
+			same := len(g[i]) == len(lastG[i])
+			if same {
+				for j := range g[i] {
+					if g[i][j].Addr != lastG[i][j].Addr {
+						same = false
+						break
 					}
-					s.SyntheticWrite(ran, vid, c, ran.LastSite())
 				}
-				if ran.SyncOps-syncAtCall[ran.ID] == 0 && ran.SyncOps == syncAtCall[ran.ID] {
-					if _, dup := run.findings["package-state-modified-without-synchronisation"]; !dup {
-						run.findings["package-state-modified-without-synchronisation"] = fmt.Sprintf("package-level variable %s changed while task %d executed call %d (%s) and the task performed no synchronisation operation in that call",
-							simrt.Globals[i].Name, ran.ID, ran.CallIdx, callName(tasks, ran.CallIdx))
+			}
+			if !same {
+				changed = []uintptr{0}
+			} else {
+				for j := range g[i] {
+					if g[i][j].Hash != lastG[i][j].Hash {
+						changed = append(changed, g[i][j].Addr)
 					}
-				} else {
-					run.stateSync++
 				}
+			}
+			if len(changed) == 0 {
+				continue
+			}
+			// feed the change into the vector-clock monitor as a write at the earliest moment
+			// it can have happened (start of this step)
+			if vid, ok := varIDByName[simrt.Globals[i].Name]; ok {
+				c := stepClock[ran.ID]
+				if c == 0 {
+					c = 1
+				}
+				for _, comp := range changed {
+					s.SyntheticWrite(ran, vid, comp, c, ran.LastSite())
+				}
+			}
+			if ran.SyncOps == syncAtCall[ran.ID] {
+				if _, dup := run.findings["package-state-modified-without-synchronisation"]; !dup {
+					run.findings["package-state-modified-without-synchronisation"] = fmt.Sprintf("package-level variable %s changed while task %d executed call %d (%s) and the task performed no synchronisation operation in that call",
+						simrt.Globals[i].Name, ran.ID, ran.CallIdx, callName(tasks, ran.CallIdx))
+				}
+			} else {
+				run.stateSync++
 			}
 		}
 		lastG = g
@@ -208,6 +237,9 @@ type c19Eval struct {
 	overrun    bool
 	orderOnly  int
 }
+
+// orderedOps: set-op catalogue entries whose output order is part of their contract.
+var orderedOps = map[string]bool{"sp_to_ext_list": true, "ext_to_sp_list": true}
 
 // keepStateClauses: after a run was cut short by the step budget only findings that do not
 // depend on the run having completed are kept (races, unsynchronised state changes,
@@ -289,9 +321,10 @@ func evalC19(tasks []C19Task, mk func(solo []*c19Run) *simrt.Sched) *c19Eval {
 			}
 			a, b := &ev.solo[ti].results[ti][ci], &in.results[ti][ci]
 			if a.Fingerprint() != b.Fingerprint() {
-				if spec := opByName[tasks[ti].Calls[ci].Op]; spec != nil && in.sched.GoCalls > 0 && canonResult(spec, a) == canonResult(spec, b) {
-					// the library started goroutines of its own: the order of a set-valued result
-					// may then legitimately depend on their schedule; the set is what is compared
+				if spec := opByName[tasks[ti].Calls[ci].Op]; spec != nil && spec.SetOp && !orderedOps[spec.Name] && canonResult(spec, a) == canonResult(spec, b) {
+					// a set-valued result in another order: the properties speak of sets (a correct
+					// cache hands a task the list another task computed under its own map order;
+					// goroutines of the library finish in a schedule-dependent order)
 					ev.orderOnly++
 					continue
 				}
@@ -449,7 +482,7 @@ func (w *Worker) runC19Case(idx int64) {
 	w.St.FaultKinds["task_order_choice"] += int64(countKind(in.sched.Decisions, "finish") + countKind(in.sched.Decisions, "start"))
 	w.St.Probes["state_changes_under_synchronisation"] += int64(in.stateSync)
 	w.St.Probes["calls_not_repeatable_alone"] += int64(ev.soloNondet)
-	w.St.Probes["result_order_differs_with_library_goroutines"] += int64(ev.orderOnly)
+	w.St.Probes["set_valued_result_in_another_order"] += int64(ev.orderOnly)
 	w.St.Probes["library_go_statements_simulated"] += int64(in.sched.GoCalls - in.sched.InlineGo)
 	w.St.Probes["library_go_statements_run_inline"] += int64(in.sched.InlineGo)
 	w.St.Probes["tasks"] += int64(len(tasks))
